@@ -6,7 +6,7 @@ sys.path.insert(0, os.path.join(os.path.dirname(os.path.abspath(__file__)), ".."
 import common, pipe_common
 
 class FakeCk:
-    def __init__(self, seed): self.seed = seed
+    def __init__(self, seed): self.seed = seed; self.replay_arg = None
 
 a, b = int(sys.argv[1]), int(sys.argv[2])
 n = int(sys.argv[3]) if len(sys.argv) > 3 else 640
